@@ -51,7 +51,6 @@ func WithDebug(f func(format string, arg ...any)) Option {
 // The ctx is used while reading the initial ClientHello only. It is not used
 // after New returns.
 func NewConn(ctx context.Context, conn net.Conn, options ...Option) (outConn *Conn, err error) {
-	defer func() { convertErrorsToAlerts(conn, err) }()
 	// The watcher must not touch the connection once NewConn has returned,
 	// even if it only gets to run after both done is closed and ctx has ended.
 	var mu sync.Mutex
@@ -78,6 +77,9 @@ func NewConn(ctx context.Context, conn net.Conn, options ...Option) (outConn *Co
 			mu.Unlock()
 		}
 	}()
+	// The alert is written while the watcher is still armed, so that a peer
+	// that does not read cannot hold NewConn beyond the context's deadline.
+	defer func() { convertErrorsToAlerts(conn, err) }()
 	record, err := readRecord(conn)
 	if err != nil {
 		return nil, err
